@@ -7,7 +7,10 @@
 EXTENDS Client, Json
 
 CONSTANTS SimDepth,  \* 0: print every transition (exhaustive mode)
-          Count      \* TRUE: print nothing (to measure an instance)
+          Count,     \* TRUE: print nothing (to measure an instance)
+          MaxDepth   \* > 0: every BEHAVIOUR of at most MaxDepth steps is generated (the history is part of the view):
+                     \*      what a faulty implementation does may depend on the order of past events, not only on
+                     \*      the state they lead to
 
 VARIABLE hist
 
@@ -61,10 +64,21 @@ GenStep ==
   \/ Bye /\ Log("Bye", None, None, 0, 0)
 
 Complete == ~alive' \/ Len(hist') >= SimDepth \/ (Len(cmds') = MaxCmds /\ PendingIds' = {} /\ cstate' # "selected")
-GenNext == GenStep /\ ((~Count /\ (SimDepth = 0 \/ Complete)) => PrintT(<<"T", ToJson(hist')>>))
+\* depth mode: only maximal behaviours are printed (the replay compares after every step anyway)
+Maximal == Len(hist') = MaxDepth + 1 \/ ~alive'
+GenNext == /\ (MaxDepth > 0 => Len(hist) <= MaxDepth)
+           /\ GenStep
+           /\ (~Count /\ (IF MaxDepth > 0 THEN Maximal ELSE (SimDepth = 0 \/ Complete))) => PrintT(<<"T", ToJson(hist')>>)
 
 \* completed commands are history: their status and data are not part of the view, but WHICH positions of the
-\* submission order are still pending is (the client keeps its pending commands in a list)
+\* submission order are still pending is (the client keeps its pending commands in a list), and so is, for every
+\* pending command, which completions it has witnessed since it was submitted: a list that is compacted wrongly
+\* when an element is removed ends up in a state that depends on exactly that
+SubmitIdx(j) == CHOOSE x \in 1..Len(hist) : hist[x].act = "Submit" /\ Cardinality({y \in 1..x : hist[y].act = "Submit"}) = j
+Witnessed(j) == LET tail == SubSeq(hist, SubmitIdx(j) + 1, Len(hist))
+                    tg == SelectSeq(tail, LAMBDA e : e.act = "Tagged")
+                IN [x \in 1..Len(tg) |-> tg[x].n1]
+DepthView == <<vars, [x \in 1..Len(hist) |-> <<hist[x].act, hist[x].s1, hist[x].s2, hist[x].n1, hist[x].n2>>]>>
 GenView == <<greet, cstate, mbox, alive,
-             [i \in 1..Len(cmds) |-> IF cmds[i].st = "pending" THEN <<cmds[i].kind, cmds[i].arg, cmds[i].ph, cmds[i].acc>> ELSE <<"done">>]>>
+             [i \in 1..Len(cmds) |-> IF cmds[i].st = "pending" THEN <<cmds[i].kind, cmds[i].arg, cmds[i].ph, cmds[i].acc, Witnessed(i)>> ELSE <<"done">>]>>
 =============================================================================
